@@ -55,6 +55,8 @@ pub enum Op {
     GrowRem { sel: Sel, extra: u32 },
     Shrink { sel: Sel, to: ShrinkTo, align: u32 },
     Dealloc { sel: Sel },
+    /// `BumpAllocatorTyped::dealloc(BumpBox<[u8]> | BumpBox<[u64]>)` (blocks with align 1 / align 8 only)
+    DeallocTyped { sel: Sel },
     /// split the selected block in two live blocks (element-aligned boundary)
     Split { sel: Sel },
     Typed { op: TypedOp, try_: bool },
@@ -349,6 +351,7 @@ impl fmt::Display for Op {
             Op::GrowRem { sel, extra } => write!(f, "growrem:{sel}:{extra}"),
             Op::Shrink { sel, to, align } => write!(f, "shrink:{sel}:{to}:{align}"),
             Op::Dealloc { sel } => write!(f, "dealloc:{sel}"),
+            Op::DeallocTyped { sel } => write!(f, "dealloct:{sel}"),
             Op::Split { sel } => write!(f, "split:{sel}"),
             Op::Typed { op, try_ } => write!(f, "{}:{}", if try_ { "trytyped" } else { "typed" }, typed_str(op)),
             Op::ShrinkSlice { sel, to } => write!(f, "shrinkslice:{sel}:{to}"),
@@ -392,6 +395,7 @@ impl Op {
             "growrem" => Op::GrowRem { sel: Sel::parse(parts.get(1)?)?, extra: n(2)? },
             "shrink" => Op::Shrink { sel: Sel::parse(parts.get(1)?)?, to: ShrinkTo::parse(parts.get(2)?)?, align: n(3)? },
             "dealloc" => Op::Dealloc { sel: Sel::parse(parts.get(1)?)? },
+            "dealloct" => Op::DeallocTyped { sel: Sel::parse(parts.get(1)?)? },
             "split" => Op::Split { sel: Sel::parse(parts.get(1)?)? },
             "typed" | "trytyped" => Op::Typed { op: typed_parse(parts.get(1)?)?, try_: name == "trytyped" },
             "shrinkslice" => Op::ShrinkSlice { sel: Sel::parse(parts.get(1)?)?, to: ShrinkTo::parse(parts.get(2)?)? },
